@@ -32,9 +32,9 @@ ASSUMPTIONS = [
     "values are compared up to string coercion (True/true, None/null, 1.0/1)",
     "cookie arrays/objects without explode:false have no defined wire form and are not generated",
 ]
-MIN_EVALUATIONS = {"quick": 1500, "thorough": 30000}
-MIN_NONTRIVIAL = {"quick": 800, "thorough": 20000}
-REACH_FLOORS = {"requests_compared": 1500, "wsgi_requests_compared": 100, "raw:path": 300, "raw:query": 300, "raw:header": 100, "raw:body": 200}
+MIN_EVALUATIONS = {"quick": 1500, "thorough": 15000}
+MIN_NONTRIVIAL = {"quick": 800, "thorough": 10000}
+REACH_FLOORS = {"requests_compared": 1000, "wsgi_requests_compared": 100, "raw:path": 300, "raw:query": 300, "raw:header": 100, "raw:body": 200}
 SHARD_TIMEOUT = {"quick": 900, "thorough": 5400}
 
 ALLOWED_CLIENT_HEADERS = {"host", "user-agent", "accept", "accept-encoding", "connection", "content-length", "content-type", "cookie", "x-schemathesis-testcaseid"}
